@@ -192,6 +192,8 @@ fn history(rng: &mut Rng) {
         let old_steps = g0.grow_steps();
         let old_rank = u0.gt().rank();
         let kind = rng.below(100);
+        // prefer initialising a vault before using it
+        let kind = if (62..95).contains(&kind) && !v0.is_initialized() && rng.chance(3, 4) { 65 } else { kind };
         let s = if kind < 30 {
             let a = amount(rng, u0.gt().amount());
             let a = bounded(&g0, a);
@@ -228,13 +230,14 @@ fn history(rng: &mut Rng) {
             if rc == 0 && paid != 0 { n_proc += 1; }
             format!("(Sp (Proc {} {} {}) (OU {rc} {} {} {reward}))", ui, z(paid), z(now), gstr(store.gt()), ustr(&users[ui]))
         } else if kind < 70 {
-            let win: u32 = match rng.below(8) { 0 => 0, 1 => 1, 2 => u32::MAX, 3 => 86400, _ => 5 + rng.below(60) as u32 };
+            let win: u32 = match rng.below(10) { 0 => 0, 1 => 1, 2 => u32::MAX, 3 => 86400, 4 | 5 => 5 + rng.below(60) as u32, _ => 100 + rng.below(3000) as u32 };
             let r = gh::vault_init(&mut vaults[vi], 3, &store_key, win);
             let rc = match &r { Ok(()) => 0, Err(e) => class(e) };
             if rc != 0 { vaults[vi] = v0; }
             format!("(Sp (VInit {} {} {}) (OV {rc} {} {} None))", vi, z(win), z(now), gstr(store.gt()), vstr(&vaults[vi]))
         } else if kind < 87 {
             let a = amount(rng, u0.gt().amount());
+            let a = if u0.gt().amount() > 0 && rng.chance(1, 2) { 1 + rng.below(u0.gt().amount()) } else { a };
             let x = exch.entry((vi, ui)).or_insert_with(|| {
                 let mut x = GtExchange::zeroed();
                 gh::exchange_init(&mut x, 1, &uh::owner(&u0), &store_key, &Pubkey::default()).unwrap();
